@@ -16,6 +16,10 @@ from vt.core import alpha, bind, explorer, pool
 ID = "C03"
 LEVEL = "model_checking"
 
+CAT_PAIRS = [(0, 1), (1, 2)]
+# a 4-category order in which 3 is reachable from 0 both directly and through 1 -> 2, the direct
+# (redundant) pair listed first: exercises the topological ordering inside the projection
+CAT_DIAMOND = [(0, 3), (0, 1), (1, 2), (2, 3)]
 KP = {"a": [0.0, 1.0, 2.0], "b": [0.0, 0.5, 2.0], "u": [-1.0, 0.0, 1.0]}
 MISSING_U = -5.0
 
@@ -27,6 +31,7 @@ def model_names(tier):
       "ens-explicit-avg", "ens-explicit-lincomb-bounds", "ens-explicit-lincomb-maxonly", "ens-random-shared",
       "ens-rtl", "ens-rtl-kfl-outcalib",
       "stack-lattice", "stack-linear",
+      "linear-cat-diamond", "lattice-cat-diamond", "ens-explicit-lincomb-minonly",
   ]
   if tier != "quick":
     base += ["lattice-convex-clamp", "lattice-trust-dominance", "lattice-learned-keypoints",
@@ -59,7 +64,19 @@ def build(name, seed=7):
   keras.utils.set_random_seed(seed)
   C = tfl.configs
   lo = hi = None
-  if name == "linear-plain":
+  pairs = CAT_PAIRS
+  if name == "linear-cat-diamond":
+    pairs = CAT_DIAMOND
+    m = tfl.premade.CalibratedLinear(C.CalibratedLinearConfig(
+        feature_configs=feature_configs(tfl, extra={"c": dict(monotonicity=list(CAT_DIAMOND))}),
+        output_initialization=[-1.0, 1.0]))
+  elif name == "lattice-cat-diamond":
+    pairs = CAT_DIAMOND
+    lo, hi = 0.0, 1.0
+    m = tfl.premade.CalibratedLattice(C.CalibratedLatticeConfig(
+        feature_configs=feature_configs(tfl, sizes=(2, 2, 2, 3), extra={"c": dict(monotonicity=list(CAT_DIAMOND))}),
+        output_min=lo, output_max=hi, output_initialization=[0.0, 1.0]))
+  elif name == "linear-plain":
     m = tfl.premade.CalibratedLinear(C.CalibratedLinearConfig(
         feature_configs=feature_configs(tfl), output_initialization=[-1.0, 1.0]))
   elif name == "linear-bounds":
@@ -128,6 +145,10 @@ def build(name, seed=7):
     elif name == "ens-explicit-lincomb-maxonly":
       hi = 1.0
       kw.update(lattices=[["a", "b"], ["u", "c"], ["a", "c"]], use_linear_combination=True, output_max=hi)
+    elif name == "ens-explicit-lincomb-minonly":
+      lo = 1.0
+      kw.update(lattices=[["a", "b"], ["u", "c"], ["b", "c"]], use_linear_combination=True, output_min=lo,
+                output_initialization=[1.0, 2.0])
     elif name == "ens-explicit-kfl":
       kw.update(lattices=[["a", "b"], ["u", "c"], ["a", "c"]], parameterization="kronecker_factored")
     elif name == "ens-random-shared":
@@ -170,7 +191,7 @@ def build(name, seed=7):
     m = keras.Model(inputs=ins, outputs=out)
   else:
     raise ValueError(name)
-  return m, dict(lo=lo, hi=hi)
+  return m, dict(lo=lo, hi=hi, pairs=pairs)
 
 
 # ---------------------------------------------------------------------- grid
@@ -213,7 +234,7 @@ def invariant_msg(out, shape, meta):
     i = np.unravel_index(int(np.argmax(d)), d.shape)
     msgs.append("output increases by %.6g when decreasing feature 'b' is raised (grid index %s)" % (d.max(), i))
   # categorical pairs (0,1),(1,2): buckets along axis 3 are [0,1,2,3,default(-1 -> last bucket 3)]
-  for i, j in ((0, 1), (1, 2)):
+  for i, j in meta.get("pairs", CAT_PAIRS):
     dd = O[:, :, :, j] - O[:, :, :, i]
     if dd.min() < -tol:
       msgs.append("category %d scores above category %d by %.6g" % (i, j, -dd.min()))
@@ -300,7 +321,12 @@ class System(object):
       if big > 1e8 or not np.isfinite(big):
         self.overflowed = getattr(self, "overflowed", 0) + 1
         return None  # float32 overflow of an unbounded model after huge steps: not a constraint matter
-    return invariant_msg(out, self.shape, self.meta)
+    msg = invariant_msg(out, self.shape, self.meta)
+    if msg and "output_m" in msg:
+      for l in self.model.layers:
+        if l.name == "tfl_output_linear_combination" and not np.any(l.kernel.numpy()):
+          msg += " [linear-combination weights all zero]"
+    return msg
 
 
 def explore(ctx, name):
@@ -334,7 +360,8 @@ def explore(ctx, name):
     what = ("bounds" if "output_m" in msg and "decreases" not in msg and "increases" not in msg else
             "monotone-a" if "'a'" in msg else "monotone-b" if "'b'" in msg else
             "categorical" if "category" in msg else "other")
-    ctx.violation(dict(model=name, what=what, at_construction=int(len(acts_only) == 0)),
+    ctx.violation(dict(model=name, what=what, at_construction=int(len(acts_only) == 0),
+                       lincomb_zero=int("weights all zero" in msg)),
                   dict(model=name, actions=acts_only), msg)
   ctx.sample(dict(model=name, example_history=[list(a) for a in (hs[-1][1:] if hs else [])],
                   weights=len(init)), limit=6)
@@ -355,10 +382,12 @@ def work(ctx, name):
 def run(ctx):
   names = alpha.rotate(model_names(ctx.tier), ctx.seed)
   ctx.rule = (
-      "15 (thorough 21) real models: CalibratedLinear {plain, bounds, output calibration}, "
+      "19 (thorough 25) real models: CalibratedLinear {plain, bounds, output calibration}, "
       "CalibratedLattice {hypercube, simplex+bounds, output calibration, kronecker_factored +- bounds}, "
-      "CalibratedLatticeEnsemble {explicit avg, explicit linear-combination+bounds, random shared "
-      "calibrators, rtl_layer, rtl+kfl+output calibration} and two hand-assembled stacks; features: "
+      "CalibratedLatticeEnsemble {explicit avg, explicit linear-combination+bounds, max-only and "
+      "min-only linear-combination, random shared calibrators, rtl_layer, rtl+kfl+output calibration}, "
+      "linear/lattice models whose categorical feature has a 4-bucket 'diamond' order with the redundant "
+      "pair listed first, and two hand-assembled stacks; features: "
       "increasing, decreasing, unconstrained with missing value, categorical with ordering pairs and "
       "default bucket. BFS depth 3 over 8 (12) actions: new-style SGD lr {0.1,10,1e3,1e4}, Adam, "
       "legacy SGD, losses {MSE vs anti-monotone labels, +sum, -sum}, two batches with missing values, "
